@@ -33,7 +33,8 @@ PROP = {
                   "a documented frame' is false on such trees (bls_swallow_witness), which is why they stay _partial. FX: all 45 methods of "
                   "runtime.ExternalInterface call the inner interface inside errors.WrapPanic and return the "
                   "WrappedExternalError; the method set equals Interface+Metrics; the 36 recover() sites and the "
-                  "defer-Recover entry points equal the pinned inventory. CC stream `fault`: 12 corpus programs x both "
+                  "defer-Recover entry points equal the pinned inventory. CC stream `fault`: 14 corpus programs (incl. first storage of 2 and 3 fresh accounts in one "
+                  "transaction with every register write of the commit as a crash point) x both "
                   "engines; every (callback, call index) reached in a clean run (all indices when <= 6 calls, else first/"
                   "second/middle/last two; all up to 40 in the thorough tier) x {error return, panic}, plus sampled pairs "
                   "of failures; observation (escaped, ok/err, errors.As ExternalError, errors.Is sentinel, error class, "
